@@ -48,8 +48,8 @@ Lemma witness_unlisted_page :
   dangling_of (write_model doc_page_oi 101 (fuel_for doc_page_oi) false 1%N None) = [6%N].
 Proof. vm_compute. reflexivity. Qed.
 
-(* an undecoded object stream member: copied, what it references is dropped *)
-Lemma witness_lazy : dangling_of (run (doc [(kMetadata, ORef 6)] FLazy)) = [7%N].
+(* an object stream member that validation never decoded is written like any other object *)
+Lemma witness_undecoded_member : dangling_of (run (doc [(kMetadata, ORef 6)] FInvalid)) = [].
 Proof. vm_compute. reflexivity. Qed.
 
 (* the key lists regenerated from write.go / writePages.go cover ISO 32000-1 ... *)
